@@ -1,5 +1,6 @@
 import Pike.Model.Proxy
 import Pike.Lemmas.Header
+import Pike.Lemmas.Rewrite
 /-
 C15 — requests and responses cross the proxy with only the configured changes (PARTIAL: the
 transport — net/http, httputil.ReverseProxy — and rewrite rules that are general regular
@@ -122,6 +123,37 @@ theorem rewrite_star (p value rest : Str) (hr : takeNonSpace rest = rest) :
     List.reverse_reverse]
   rw [splitAt_prefix]
   simp only [hr]
+
+/-- FULL STATEMENT (rewrite, any wildcard placement, e.g. the documented `/rest/*/user/*:/$1/$2`).
+When a rule with k stars fires, the upstream path is the rule's value with `$1…$k` replaced by
+k pieces of the CLIENT'S OWN path: from the match position on, the client's path reads literal₀,
+piece₁, literal₁, …, pieceₖ, literalₖ, and no piece contains a blank.  When it does not fire the
+path is forwarded as the client sent it. -/
+theorem rewrite_wildcards (path : Str) (rule : Str × Str)
+    (hl : 2 ≤ (splitStars rule.1).length ∧ (splitStars rule.1).length ≤ 10) :
+    rewriteG path rule = path
+      ∨ ∃ (i : Nat) (caps : List Str), rewriteG path rule = substN caps rule.2
+          ∧ caps.length + 1 = (splitStars rule.1).length
+          ∧ interleave (splitStars rule.1) caps <+: path.drop i
+          ∧ ∀ c ∈ caps, takeNonSpace c = c := by
+  unfold rewriteG
+  simp only
+  split
+  · rename_i h; omega
+  · cases hm : matchAny (splitStars rule.1) path with
+    | none => exact Or.inl rfl
+    | some caps =>
+      right
+      unfold matchAny at hm
+      obtain ⟨i, _, hi⟩ := List.exists_of_findSome?_eq_some hm
+      obtain ⟨h1, h2, h3⟩ := matchHere_sound _ _ caps (by intro e; rw [e] at hl; simp at hl) hi
+      exact ⟨i, caps, rfl, h1, h2, h3⟩
+
+/- the documented examples, evaluated (tests of the model, not theorems about all inputs) -/
+example : rewriteRule "/rest/v1/user/42".toList ("/rest/*/user/*".toList, "/$1/$2".toList) = "/v1/42".toList := by decide
+example : rewriteRule "/api/users/1".toList ("/api/*".toList, "/$1".toList) = "/users/1".toList := by decide
+example : rewriteRule "/plain/x".toList ("/rest/*/user/*".toList, "/$1/$2".toList) = "/plain/x".toList := by decide
+example : rewriteRule "/rest/a/user/b/user/c".toList ("/rest/*/user/*".toList, "/$1+$2".toList) = "/a/user/b+c".toList := by decide
 
 /-- a rule whose pattern does not occur leaves the path alone -/
 theorem rewrite_no_match (path pat value : Str) (h : contains pat path = false) (hstar : pat.reverse.head? ≠ some '*') :
